@@ -42,6 +42,30 @@ CLAIMED.update({
             "3/C20"),
 })
 
+CLAIMED.update({
+    "C04": ("Proof of the per-goroutine stream-transformer contracts, for every stream length and port set: OutPort.Send / OutParamPort.Send deliver to every remote port exactly once (and to no other channel), receiveOnInPorts / receiveOnInParamPorts take exactly one item per port per round and report 'open' exactly when every port delivered, createTasks builds the k-th task from the k-th item of every port (lock-step, one task per complete input set, a single task without ports, channel closed once), NewTask covers exactly the path functions, Process.Run spawns Execute exactly once per received task and forwards every non-streaming output exactly once in arrival order, OutPort.Close / InPort.CloseConnection notify every remote exactly once and close the channel exactly when the last upstream closed (under the close lock), Workflow.runProcs starts every process of the run set exactly once and never the driver. Rely/guarantee: channel element invariants (every IP / task sent satisfies validIP / taskOK) are proved at every send and assumed at every receive.",
+            "Assumed: Go channel semantics (the sequence received from a channel with one receiver is an order-preserving merge of the senders' sequences); composition of the per-process contracts into the workflow-level statement (Kahn argument) is on paper; no interference of other goroutines on the ports' RemotePorts maps while their owner iterates them; lock-step creation is proved for processes without joined in-ports (joined ports: C18); a carrier IP is consumed by one joined in-port only. Liveness (blocked sends eventually proceed) is not decidable here.",
+            "3/C04"),
+    "C05": ("Proof of the safety half: Task.Execute signals Done only when the task was skipped or completely finalized with its slots released; Process.Run closes its out-ports only when the task channel is exhausted and the queue of started tasks is empty, and has then forwarded every task; OutPort.Close notifies every remote once.",
+            "NOT decided here (not applicable to this technique): that Run/RunTo returns after finitely many steps (deadlock freedom / termination is liveness). Known structural limitation F4 (a port-less driver does not wait for other branches) is documented in DESIGN.md; Sink.Run's drain contract is not yet under proof.",
+            "3/C05"),
+    "C07": ("Proof of the safety lemmas behind the slot protocol and of the rejection clause: Process.Run rejects CoresPerTask > cap before creating any task or starting any execution; IncConcurrentTasks deposits tokens only while holding the acquisition mutex and releases it on every path; DecConcurrentTasks takes no lock and sends nothing; Execute releases exactly what it acquired.",
+            "NOT decided here: 'waiting tasks eventually run' and 'k fitting tasks really execute simultaneously' are liveness/scheduling statements; the standard no-cycle-in-wait-for-graph argument from the proved lemmas is on paper.",
+            "3/C07"),
+    "C08": ("Proof, with select treated as demonic choice and for every number of tasks and every completion order, of the loop invariant of Process.Run: the queue of started tasks is the suffix of the received sequence in arrival order, only the oldest task's Done channel is waited for, new tasks are appended at the tail, and the k-th item on every non-streaming out-port is the output of the k-th received task; Done channels are unbuffered; sends append at the end of each remote channel.",
+            "Assumed: per-sender FIFO of Go channels (for the fan-in sentence); the single-receiver prophecy sequence of the task channel.",
+            "3/C08"),
+    "C16": ("Proof that BaseProcess.Ready returns only if every in-, out-, parameter-in- and parameter-out-port is connected, that readyToRun is true only if every process of the run set answered Ready, that runProcs starts a process (go or driver) only after that; that upstreamProcsForProc returns a set keyed by process name that contains every direct upstream (file and parameter edges), is closed under upstream and contains only processes with a downstream witness inside the set (hence, for acyclic graphs, exactly the transitive upstream closure); that RunToProcs hands runProcs exactly the union of the targets and their closures; wiring operations keep ready <=> connected.",
+            "Assumed: process names identify processes (AddProc refuses duplicates); port maps of a process are not replaced after construction; interface dispatch of WorkflowProcess follows the interface contracts. The rewiring of cut connections to the sink (reconnectDeadEndConnections) is under a frame-only contract so far. Defects F3 and F9 were repaired (fix: commits).",
+            "3/C16"),
+    "C17": ("Proof of the sequential FIFO mechanism: producer ({os:}) and consumer ({i:} of a streaming IP) placeholders expand to the same path.fifo string; in Process.Run an existing FIFO is refused (Fail) before CreateFifo, the FIFO is created and the IP sent before the producing task is started, streaming outputs are never forwarded a second time; NewTask propagates the stream flag; streaming outputs are exempt from existence checks and renames; CreateFifo creates no regular file.",
+            "NOT decided here: that the consumer receives exactly the producer's bytes (kernel pipe semantics, two OS processes), which of the two concurrent tasks finishes first (audit link), termination of a re-run.",
+            "3/C17"),
+    "C18": ("Proof that NewTask drains the sub-stream channel of every joined in-port until it is closed and stores exactly the received sequence (whole sub-stream, once, arrival order), that formatCommand replaces the joined placeholder by the members' paths, each ../-prefixed unless absolute, joined by the separator in order, and that a joined port receives one carrier per task (createTasks).",
+            "Assumed: single receiver of the sub-stream channel; separator parsing in initPortsFromCmdPattern is not yet under contract; audit Upstream entries of the members: C10.",
+            "3/C18"),
+})
+
 NA = {
     "C12": "data-race freedom is a relation between two goroutines' accesses; the VC generator verifies one goroutine at a time and has no permission/ownership logic (DESIGN.md section 5)",
 }
